@@ -12,6 +12,11 @@ def OracleGetReqCtxIDKey (requestContextID : ByteArray) : Option (ByteArray) := 
 def OracleGetFeedValuePrefixKey (feedName : String) : Option (ByteArray) := do
   some (Bytes_append (Bytes_append (ByteArray.mk #[3]) (Bytes_ofString feedName)) (ByteArray.mk #[0]))
 
+def OracleGetFeedValueKey (feedName : String) (batchCounter : Nat) : Option (ByteArray) := do
+  let key : ByteArray := (Uint64ToBigEndian batchCounter)
+  let t1 ← OracleGetFeedValuePrefixKey feedName
+  some (Bytes_append t1 key)
+
 def RandomKeyRandom (reqID : ByteArray) : Option (ByteArray) := do
   some (Bytes_append (ByteArray.mk #[1]) reqID)
 
@@ -145,7 +150,7 @@ def CoinswapGetLptDenomKey (lptDenom : String) (read_fmt_Sprintf_ss_KeyPoolLptDe
 def untranslated : List String := []
 
 /-- names of the translated definitions -/
-def translated : List String := ["OracleGetFeedKey(feedName)", "OracleGetReqCtxIDKey(requestContextID)", "OracleGetFeedValuePrefixKey(feedName)", "RandomKeyRandom(reqID)", "RandomKeyRequestQueue(height,reqID)", "RandomKeyRequestQueueSubspace(height)", "RandomKeyOracleRequest(requestContextID)", "FarmKeyFarmPool(poolId)", "FarmKeyRewardRule(poolId,reward)", "FarmPrefixRewardRule(poolId)", "FarmKeyFarmInfo(address,poolId)", "FarmPrefixFarmInfo(address)", "FarmKeyActiveFarmPool(height,poolId)", "FarmPrefixActiveFarmPool(height)", "FarmKeyEscrowInfo(proposalId)", "HtlcGetHTLCKey(id)", "HtlcGetHTLCExpiredQueueKey(expirationHeight,id)", "HtlcGetHTLCExpiredQueueSubspace(expirationHeight)", "HtlcGetAssetSupplyKey(denom)", "MtKeyDenom(id,Delimiter)", "ServiceGetServiceDefinitionKey(serviceName)", "ServiceGetServiceBindingKey(serviceName,provider,read_getStringsKey__string)", "ServiceGetRequestContextKey(requestContextID)", "ServiceGetExpiredRequestBatchKey(requestContextID,batchExpirationHeight)", "ServiceGetNewRequestBatchKey(requestContextID,requestBatchHeight)", "ServiceGetExpiredRequestBatchSubspace(batchExpirationHeight)", "ServiceGetNewRequestBatchSubspace(requestBatchHeight)", "ServiceGetExpiredRequestBatchHeightKey(requestContextID)", "ServiceGetNewRequestBatchHeightKey(requestContextID)", "ServiceGetRequestKey(requestID)", "ServiceGetActiveRequestKeyByID(requestID)", "ServiceGetResponseKey(requestID)", "ServiceGetEarnedFeesKey(provider,denom,read_provider_Bytes)", "ServiceGetEarnedFeesSubspace(provider,read_provider_Bytes)", "ServiceGetOwnerEarnedFeesKey(owner,denom,read_owner_Bytes)", "ServiceGetOwnerEarnedFeesSubspace(owner,read_owner_Bytes)", "RecordGetRecordKey(recordID)", "TokenKeySymbol(symbol)", "TokenKeyMinUint(minUnit)", "TokenKeyContract(contract,read_common_HexToAddress_contract_Bytes)", "TokenKeyTokens(owner,symbol,read_owner_Bytes)", "TokenKeyBurnTokenAmt(minUint)", "CoinswapGetPoolKey(pooId,read_fmt_Sprintf_ss_KeyPool_pooId)", "CoinswapGetLptDenomKey(lptDenom,read_fmt_Sprintf_ss_KeyPoolLptDenom_lptDenom)"]
+def translated : List String := ["OracleGetFeedKey(feedName)", "OracleGetReqCtxIDKey(requestContextID)", "OracleGetFeedValuePrefixKey(feedName)", "OracleGetFeedValueKey(feedName,batchCounter)", "RandomKeyRandom(reqID)", "RandomKeyRequestQueue(height,reqID)", "RandomKeyRequestQueueSubspace(height)", "RandomKeyOracleRequest(requestContextID)", "FarmKeyFarmPool(poolId)", "FarmKeyRewardRule(poolId,reward)", "FarmPrefixRewardRule(poolId)", "FarmKeyFarmInfo(address,poolId)", "FarmPrefixFarmInfo(address)", "FarmKeyActiveFarmPool(height,poolId)", "FarmPrefixActiveFarmPool(height)", "FarmKeyEscrowInfo(proposalId)", "HtlcGetHTLCKey(id)", "HtlcGetHTLCExpiredQueueKey(expirationHeight,id)", "HtlcGetHTLCExpiredQueueSubspace(expirationHeight)", "HtlcGetAssetSupplyKey(denom)", "MtKeyDenom(id,Delimiter)", "ServiceGetServiceDefinitionKey(serviceName)", "ServiceGetServiceBindingKey(serviceName,provider,read_getStringsKey__string)", "ServiceGetRequestContextKey(requestContextID)", "ServiceGetExpiredRequestBatchKey(requestContextID,batchExpirationHeight)", "ServiceGetNewRequestBatchKey(requestContextID,requestBatchHeight)", "ServiceGetExpiredRequestBatchSubspace(batchExpirationHeight)", "ServiceGetNewRequestBatchSubspace(requestBatchHeight)", "ServiceGetExpiredRequestBatchHeightKey(requestContextID)", "ServiceGetNewRequestBatchHeightKey(requestContextID)", "ServiceGetRequestKey(requestID)", "ServiceGetActiveRequestKeyByID(requestID)", "ServiceGetResponseKey(requestID)", "ServiceGetEarnedFeesKey(provider,denom,read_provider_Bytes)", "ServiceGetEarnedFeesSubspace(provider,read_provider_Bytes)", "ServiceGetOwnerEarnedFeesKey(owner,denom,read_owner_Bytes)", "ServiceGetOwnerEarnedFeesSubspace(owner,read_owner_Bytes)", "RecordGetRecordKey(recordID)", "TokenKeySymbol(symbol)", "TokenKeyMinUint(minUnit)", "TokenKeyContract(contract,read_common_HexToAddress_contract_Bytes)", "TokenKeyTokens(owner,symbol,read_owner_Bytes)", "TokenKeyBurnTokenAmt(minUint)", "CoinswapGetPoolKey(pooId,read_fmt_Sprintf_ss_KeyPool_pooId)", "CoinswapGetLptDenomKey(lptDenom,read_fmt_Sprintf_ss_KeyPoolLptDenom_lptDenom)"]
 
 /-- every rejecting guard of the translated functions, in source order -/
 def guards : List String := []
